@@ -140,12 +140,17 @@ func (t *c01Transport) snapshot() ([][]byte, []uint32) {
 // ---- script ----
 
 type c01Op struct {
-	K     string `json:"k"` // pub | pub0 | drop | dup | deliver | clear | reset | join | leave
-	F     bool   `json:"f,omitempty"`
-	Size  int    `json:"size,omitempty"`
-	I     int    `json:"i,omitempty"`
-	Lag   bool   `json:"lag,omitempty"`
-	Unsub int    `json:"unsub,omitempty"` // deliverx: unsubscribe (1 client command, 2 server API) started between CheckPosition and Enqueue
+	K    string `json:"k"` // pub | pub0 | drop | dup | deliver | clear | reset | join | leave
+	F    bool   `json:"f,omitempty"`
+	Size int    `json:"size,omitempty"`
+	I    int    `json:"i,omitempty"`
+	Lag  bool   `json:"lag,omitempty"`
+	// check: the connection's periodic tick (Client.updatePresence) runs its stream position check
+	// for the channel; the tick goroutine is parked when Broker.History has returned the stream top
+	// (position snapshot taken, verdict not yet applied) and these steps run there
+	// (pub | dup | drop | deliver)
+	Mid   []c01Op `json:"mid,omitempty"`
+	Unsub int     `json:"unsub,omitempty"` // deliverx: unsubscribe (1 client command, 2 server API) started between CheckPosition and Enqueue
 }
 
 type c01Script struct {
@@ -217,6 +222,7 @@ type c01World struct {
 	deliv    []string    // Coq frames of the messages handed to the node, in delivery order
 	delivK   []string    // the same as comparable keys (pub:<id> | join | leave)
 	batchOff int32
+	skew     int64
 	lastLive string // Coq term: option frame (C38's end-to-end cases)
 	cwEnd    int    // items left in the channel's batching writer when the schedule ended
 }
@@ -237,7 +243,7 @@ func c01NewWorld(t *testing.T, sc *c01Script) *c01World {
 	w := &c01World{t: t, sc: sc, byID: map[int]c01Pub{}, curEp: 1, epIdx: map[string]uint64{"": 0}, epStr: map[uint64]string{0: ""},
 		arrive: make(chan string), release: make(chan struct{})}
 	var mediumFn func(string) ChannelMediumOptions
-	checkDelay := time.Duration(0)
+	checkDelay := time.Nanosecond // every tick of the driver checks the position (see opPosCheck)
 	if sc.Medium {
 		mediumFn = func(string) ChannelMediumOptions {
 			o := ChannelMediumOptions{SharedPositionSync: true}
@@ -267,6 +273,9 @@ func c01NewWorld(t *testing.T, sc *c01Script) *c01World {
 	if err != nil {
 		t.Fatal(err)
 	}
+	// the node's clock runs ahead by a driver-controlled number of seconds (the position check is
+	// due when at least a second has passed since the last one)
+	n.nowTimeGetter = func() time.Time { return time.Now().Add(time.Duration(atomic.LoadInt64(&w.skew)) * time.Second) }
 	mb, err := NewMemoryBroker(n, MemoryBrokerConfig{})
 	if err != nil {
 		t.Fatal(err)
@@ -733,6 +742,62 @@ func (w *c01World) opMark() {
 	w.settleInsufficient()
 }
 
+// The periodic position check of the connection (Client.updatePresence -> checkPosition ->
+// Node.checkPosition -> Broker.History), with the tick goroutine parked after the broker returned
+// the stream top.  On the model: a VALID verdict changes nothing that is modelled (the code as it
+// stands re-reads the channel entry and only stamps positionCheckTime), so it has no label; an
+// INVALID verdict spawns the same insufficient-state unsubscribe / disconnect, under the same guard
+// (subscribed, positioned), as the channel medium's marker reaching the subscription, and is
+// replayed as that action (LMarker; LDeliver; LCheck).  Only once the subscribe finished.
+func (w *c01World) opPosCheck(mid []c01Op) {
+	if w.sc.Medium || !w.sc.Pos || w.curPh < 6 || w.blocked != nil || w.locked || w.tr.isClosed() || !w.isSubscribed() {
+		return
+	}
+	atomic.AddInt64(&w.skew, 2)
+	var once int32
+	w.br.hook = func(name string) {
+		if name == "hist" && atomic.CompareAndSwapInt32(&once, 0, 1) {
+			w.gate("check")
+		}
+	}
+	done := make(chan struct{})
+	endedInside := false
+	go func() { w.client.updatePresence(); close(done) }()
+	select {
+	case <-w.arrive:
+		for _, op := range mid {
+			switch op.K {
+			case "pub", "dup", "drop", "deliver":
+				w.runOps([]c01Op{op})
+			}
+		}
+		endedInside = w.tr.isClosed() || !w.isSubscribed()
+		w.release <- struct{}{}
+		select {
+		case <-done:
+		case <-time.After(5 * time.Second):
+			w.fail("position check did not finish")
+		}
+	case <-done: // the tick had nothing to check
+	case <-time.After(5 * time.Second):
+		w.fail("position check stuck")
+	}
+	w.br.hook = nil
+	if atomic.LoadInt32(&w.insuff) > w.insuffH {
+		// invalid verdict ("client insufficient state from periodic check")
+		w.emitL("LMarker")
+		w.emitL(fmt.Sprintf("(LDeliver %d%%nat false)", len(w.fl)))
+		w.emit("HTail")
+		if endedInside {
+			// the subscription had been ended by a delivery inside the check: the spawned
+			// goroutine finds nothing to end
+			w.insuffH = atomic.LoadInt32(&w.insuff)
+		} else {
+			w.settleInsufficient()
+		}
+	}
+}
+
 func (w *c01World) joinBlocked() {
 	if w.blocked == nil {
 		return
@@ -776,6 +841,8 @@ func (w *c01World) runOps(ops []c01Op) {
 			w.opFlush()
 		case "mark":
 			w.opMark()
+		case "check":
+			w.opPosCheck(op.Mid)
 		case "deliverx":
 			w.opDeliverSplit(op.I, op.Unsub)
 		case "clear":
@@ -1318,7 +1385,33 @@ func c01RandScript(r *rand.Rand, pos bool, jl bool) *c01Script {
 		sc.Connect = true
 	}
 	c01AddMedium(r, sc)
+	c01AddChecks(r, sc)
 	return sc
+}
+
+// periodic position checks among the live steps of a positioned subscription (no medium: there the
+// check is the medium's), some with a publication delivered inside the check and a duplicate after it
+func c01AddChecks(r *rand.Rand, sc *c01Script) {
+	if sc.Medium || !sc.Pos || r.Intn(3) != 0 {
+		return
+	}
+	for k := 0; k < 1+r.Intn(2); k++ {
+		chk := c01Op{K: "check"}
+		var after []c01Op
+		switch r.Intn(4) {
+		case 0:
+			chk.Mid = []c01Op{c01P(r.Intn(6) == 0), {K: "dup", I: 0}, c01D(0)}
+			after = []c01Op{c01D(0)}
+		case 1:
+			chk.Mid = []c01Op{c01P(false), c01D(0)}
+		case 2:
+			chk.Mid = c01RandOps(r, 1+r.Intn(3), false)
+		}
+		ops := sc.Phase[6]
+		at := r.Intn(len(ops) + 1)
+		ins := append([]c01Op{chk}, after...)
+		sc.Phase[6] = append(ops[:at:at], append(ins, ops[at:]...)...)
+	}
 }
 
 // a third of the scripts run behind a channel medium; half of those see a marker
@@ -1415,12 +1508,20 @@ func c01Corpus() []*c01Script {
 		{Connect: true, Pos: true, Rec: true, SinceDelta: -3, SinceEp: 1, Unsub: 2, Phase: c01Phases(map[int][]c01Op{0: c01Ops(P(false), P(false), P(false), c01Op{K: "pub", Size: 1}), 6: c01Ops(P(false), D(4)), 7: c01Ops(P(false), D(0))})},
 		// 28: connect-time, client unsubscribe command, then close
 		{Connect: true, Pos: true, Unsub: 1, Close: true, Phase: c01Phases(map[int][]c01Op{6: c01Ops(P(false), D(0)), 7: c01Ops(P(false), D(0)), 8: c01Ops(P(false), D(0))})},
+		// 32-34 (below): the periodic position check
 		// 29: behind a channel medium (shared position sync): the marker ends a positioned subscription
 		{Medium: true, Pos: true, Phase: c01Phases(map[int][]c01Op{0: c01Ops(P(false), D(0)), 6: c01Ops(P(false), D(0), c01Op{K: "mark"}, P(false), D(0))})},
 		// 30: same, server-side subscription (disconnect), recovery on
 		{Medium: true, Server: true, Pos: true, Rec: true, SinceDelta: 0, SinceEp: 1, Phase: c01Phases(map[int][]c01Op{0: c01Ops(P(false), D(0)), 6: c01Ops(P(false), D(0), c01Op{K: "mark"}, P(false), D(0))})},
 		// 31: the marker is invisible to a non-positioned subscription
 		{Medium: true, NoFilter: true, Phase: c01Phases(map[int][]c01Op{6: c01Ops(P(false), D(0), c01Op{K: "mark"}, P(false), D(0))})},
+		// 32: a publication is delivered while the position check waits for the stream top; a duplicated
+		// PUB/SUB copy of it arrives afterwards: it must be recognised as already delivered
+		{Pos: true, Phase: c01Phases(map[int][]c01Op{0: c01Ops(P(false), P(false), D(0), D(0)), 6: c01Ops(P(false), D(0), c01Op{K: "check", Mid: c01Ops(P(false), c01Op{K: "dup", I: 0}, D(0))}, D(0), P(false), D(0))})},
+		// 33: same, server-side subscription with recovery on
+		{Server: true, Pos: true, Rec: true, SinceDelta: 0, SinceEp: 1, Phase: c01Phases(map[int][]c01Op{0: c01Ops(P(false), D(0)), 6: c01Ops(c01Op{K: "check", Mid: c01Ops(P(false), c01Op{K: "dup", I: 0}, D(0))}, D(0), c01Op{K: "check"}, P(false), D(0))})},
+		// 34: the check detects a lost publication (published, never delivered): insufficient state
+		{Pos: true, Phase: c01Phases(map[int][]c01Op{6: c01Ops(P(false), D(0), P(false), drop(0), c01Op{K: "check"}, P(false), D(0))})},
 	}
 }
 
